@@ -1321,6 +1321,19 @@ impl<'a> VisitMut for Rewriter<'a> {
                 }
             }
         }
+        // R7 (pinning): `std::pin::pin!(e)` pins a future in place; in the projection a future is a value: `vx_pin(e)` (identity stand-in)
+        if let syn::Expr::Macro(m) = e {
+            let segs: Vec<String> = m.mac.path.segments.iter().map(|x| x.ident.to_string()).collect();
+            let is_pin = segs.last().map(|x| x == "pin").unwrap_or(false) && (segs.len() == 1 || segs[0] == "std" || segs[0] == "core");
+            if is_pin && (self.async_projection == "erase" || self.async_projection == "call") {
+                if let Ok(mut inner) = syn::parse2::<syn::Expr>(m.mac.tokens.clone()) {
+                    self.visit_expr_mut(&mut inner);
+                    *e = syn::parse_quote!(vx_pin(#inner));
+                    self.rules.insert("R7".into());
+                    return;
+                }
+            }
+        }
         // R23: `vec![a, b, ..]` (list form) is expanded to its meaning: a fresh vector and one push per element
         if let syn::Expr::Macro(m) = e {
             if m.mac.path.is_ident("vec") {
@@ -2269,6 +2282,36 @@ fn main() {
                             }
                         }
                     }
+                    // R27 across files: inherent methods of the OTHER types this unit extracts method-by-method (their impl is listed with
+                    // `methods = [..]`): a new helper there that nobody provides is inlined as well.  A name that the current file defines
+                    // itself always means the current file's; a name that two other files define is ambiguous and left out
+                    let mut xseen: BTreeMap<String, usize> = BTreeMap::new();
+                    let mut xcand: BTreeMap<String, syn::ImplItemFn> = BTreeMap::new();
+                    let mut done_files: BTreeSet<(String, String)> = BTreeSet::new();
+                    for other in unit_toml.item.iter() {
+                        if other.file == spec.file || other.file.starts_with("GENERATED/") || other.methods.is_empty() { continue; }
+                        let mut parts = other.path.split_whitespace();
+                        if parts.next() != Some("impl") { continue; }
+                        let oty = match (parts.next(), parts.next()) { (Some(t), None) => t.to_string(), _ => continue };
+                        if !done_files.insert((other.file.clone(), oty.clone())) { continue; }
+                        let src = match std::fs::read_to_string(repo.join(&other.file)) { Ok(x) => x, Err(_) => continue };
+                        let of = match syn::parse_file(&src) { Ok(x) => x, Err(_) => continue };
+                        for it in of.items.iter() {
+                            if let syn::Item::Impl(im2) = it {
+                                if im2.trait_.is_some() || !cfg.keep(&im2.attrs) || type_last_ident(&im2.self_ty).as_deref() != Some(oty.as_str()) { continue; }
+                                for ii in im2.items.iter() {
+                                    if let syn::ImplItem::Fn(mf) = ii {
+                                        if !cfg.keep(&mf.attrs) { continue; }
+                                        let n = mf.sig.ident.to_string();
+                                        *xseen.entry(n.clone()).or_insert(0) += 1;
+                                        if listed.contains(&n) || prelude_fn_names.contains(&n) { continue; }
+                                        xcand.insert(n, mf.clone());
+                                    }
+                                }
+                            }
+                        }
+                    }
+                    for (n, mf) in xcand { if !seen.contains_key(&n) && xseen.get(&n) == Some(&1) { rw.inline_table.insert(n, mf); } }
                     for (n, mf) in cand { if seen.get(&n) == Some(&1) { rw.inline_table.insert(n, mf); } }
                 }
                 for mut im in matched {
